@@ -66,7 +66,7 @@ type run struct {
 	ticks    map[int64]int // createdTime (fasttime tick) → tick id of the line protocol
 	famTick  map[int]int   // tick id of the family's current mutable memory database
 	collided bool          // two live memory databases share a createdTime
-	oracleOn bool // false: no impl-side oracle in this case (witness cases evaluate their own)
+	oracleOn bool          // false: no impl-side oracle in this case (witness cases evaluate their own)
 	failed   bool
 }
 
@@ -366,6 +366,7 @@ func (r *run) query(q qSpec) (aggResult, string) {
 	}
 	if res != nil && implLine != "harness-error" && implLine != "rs-error" {
 		r.exprCheck(q, res)
+		r.exprCheckX(q)
 	}
 	if r.oracleOn && reg == "" && implLine != "harness-error" && implLine != wantLine {
 		r.failed = true
@@ -727,4 +728,64 @@ func realFuncCall(fn, sec, v int) string {
 		return fmt.Sprintf("%d/%d", v, sec)
 	}
 	return fmt.Sprintf("other(%v)", got)
+}
+
+// exprCheckX: select-item EXPRESSIONS (binary arithmetic, literals, parentheses, calls over
+// expressions) over the fields and functions of the query, evaluated by the real
+// aggregation.NewExpression on the root's merge of the real leaf answer. Two comparisons per group
+// and item: the Lean model of expression.go / binary.go (`x` op, model diff) and the oracle — the
+// item point by point in exact arithmetic over the same field store.
+func (r *run) exprCheckX(q qSpec) {
+	h := int64(r.c.Seed)
+	for _, ch := range q.proto() {
+		h = h*1000003 + int64(ch)
+	}
+	rng := rand.New(rand.NewSource(h))
+	var xs []*xnode
+	for i := 0; i < 3; i++ {
+		xs = append(xs, genExpr(rng, q.items))
+	}
+	groups, err := r.e.exprEvalX(q, xs)
+	if err != nil {
+		r.c.Note("expression layer not checked: " + err.Error())
+		r.c.Branch("exprx/skipped")
+		return
+	}
+	sec := int(r.ivMs * int64(q.ratio) / 1000)
+	var keys []string
+	for k := range groups {
+		keys = append(keys, k)
+	}
+	sort.Strings(keys)
+	for _, key := range keys {
+		g := groups[key]
+		if !g.store.integral() || len(g.items) != len(xs) {
+			r.c.Branch("exprx/skipped")
+			continue
+		}
+		for j, x := range xs {
+			want := xval{status: "empty"}
+			if len(g.store.flds) > 0 {
+				want = x.eval(g.n, sec, g.store, 0)
+			}
+			have := g.items[j]
+			implLine := have.render(want)
+			r.c.Op(fmt.Sprintf("x %d %d | %s | %s", g.n, sec, x.proto(), g.store.proto()), implLine)
+			r.c.Branch("exprx/" + want.status)
+			if want.status == "arr" && len(want.vals) > 0 {
+				r.c.Branch("exprx/kind:" + x.kind)
+				r.c.NonTrivial()
+			}
+			if want.status == "crash" && (have.status == "crash" || have.status == "empty") {
+				// known finding expr-rate-of-valueless-operands-panics (deterministic witness: fixed
+				// case 15); "empty" is the answer of the source with the nil guard in RateCall
+				r.c.Branch("exprx/known:rate-of-nil-array-" + have.status)
+				continue
+			}
+			if wl := want.render(); r.oracleOn && implLine != wl {
+				r.c.Fail("expr-ne-reference", fmt.Sprintf("select %s, group %s, store {%s}: expression evaluates to %q, point by point it is %q", x.sql(), key, g.store.proto(), implLine, wl))
+				return
+			}
+		}
+	}
 }
